@@ -2,6 +2,8 @@ package rules
 
 import (
 	"fmt"
+	"go/constant"
+	"go/token"
 	"regexp"
 	"strconv"
 	"strings"
@@ -222,4 +224,153 @@ func rulePrintForm(c *core.Ctx, rule, ruleNotes string) {
 func isCallOnAny(v absint.Value, method string) bool {
 	_, ok := termCall(v, method)
 	return ok
+}
+
+// ruleConstFormats: the format argument of every printf-family call in the
+// tree is built from constants (and padding made of constants) only. A format
+// that contains run-time text — a food name, a note, a path — misprints or
+// swallows the rest of the row as soon as that text contains a '%'.
+func ruleConstFormats(c *core.Ctx, rule string, only func(*ssa.Function) bool) {
+	fmtArg := map[string]int{
+		"fmt.Fprintf": 1, "fmt.Printf": 0, "fmt.Sprintf": 0, "fmt.Errorf": 0, "fmt.Fscanf": 1, "fmt.Sscanf": 1,
+		"log.Printf": 0, "log.Fatalf": 0, "log.Panicf": 0, "(*log.Logger).Printf": 1, "(*log.Logger).Fatalf": 1,
+	}
+	var safe func(v ssa.Value, depth int) (bool, string)
+	safe = func(v ssa.Value, depth int) (bool, string) {
+		if depth > 6 {
+			return false, "too deeply nested to follow"
+		}
+		switch x := v.(type) {
+		case *ssa.Const:
+			return true, ""
+		case *ssa.BinOp:
+			if x.Op != token.ADD {
+				return false, x.String()
+			}
+			if ok, why := safe(x.X, depth+1); !ok {
+				return false, why
+			}
+			return safe(x.Y, depth+1)
+		case *ssa.Phi:
+			for _, e := range x.Edges {
+				if ok, why := safe(e, depth+1); !ok {
+					return false, why
+				}
+			}
+			return true, ""
+		case *ssa.Call:
+			cal := x.Call.StaticCallee()
+			if cal != nil && cal.String() == "strings.Repeat" && len(x.Call.Args) == 2 {
+				if k, ok := x.Call.Args[0].(*ssa.Const); ok && k.Value != nil && k.Value.Kind() == constant.String && !strings.Contains(constant.StringVal(k.Value), "%") {
+					return true, ""
+				}
+			}
+			if cal != nil && len(cal.Blocks) > 0 && c.P.InScope(cal) {
+				// a helper that returns a format: every return must be safe
+				for _, b := range cal.Blocks {
+					for _, in := range b.Instrs {
+						if r, ok := in.(*ssa.Return); ok && len(r.Results) == 1 {
+							if ok, why := safe(r.Results[0], depth+1); !ok {
+								return false, why
+							}
+						}
+					}
+				}
+				return true, ""
+			}
+			return false, "the result of " + x.Call.Value.Name()
+		case *ssa.UnOp:
+			if g, ok := x.X.(*ssa.Global); ok && x.Op == token.MUL {
+				// a package-level format: assigned from safe values only (C05-R4 guards later writes)
+				n := 0
+				for _, fn := range c.P.Funcs {
+					for _, b := range fn.Blocks {
+						for _, in := range b.Instrs {
+							if st, ok := in.(*ssa.Store); ok && st.Addr == ssa.Value(g) {
+								n++
+								if ok, why := safe(st.Val, depth+1); !ok {
+									return false, why
+								}
+							}
+						}
+					}
+				}
+				if g.Pkg != nil {
+					if init := g.Pkg.Func("init"); init != nil {
+						for _, b := range init.Blocks {
+							for _, in := range b.Instrs {
+								if st, ok := in.(*ssa.Store); ok && st.Addr == ssa.Value(g) {
+									n++
+									if ok, why := safe(st.Val, depth+1); !ok {
+										return false, why
+									}
+								}
+							}
+						}
+					}
+				}
+				return n > 0, "the package-level variable " + g.Name()
+			}
+			return false, "a value loaded from memory (" + x.X.Name() + ")"
+		case *ssa.Parameter:
+			fn := x.Parent()
+			idx := -1
+			for i, prm := range fn.Params {
+				if prm == x {
+					idx = i
+				}
+			}
+			n := 0
+			for _, g := range c.P.Funcs {
+				for _, b := range g.Blocks {
+					for _, in := range b.Instrs {
+						if ci, ok := in.(ssa.CallInstruction); ok && ci.Common().StaticCallee() == fn && idx >= 0 && idx < len(ci.Common().Args) {
+							n++
+							if ok, why := safe(ci.Common().Args[idx], depth+1); !ok {
+								return false, why
+							}
+						}
+					}
+				}
+			}
+			if n == 0 {
+				return false, "the parameter " + x.Name() + " (no caller in the tree)"
+			}
+			return true, ""
+		}
+		return false, v.Name() + " = " + v.String()
+	}
+	n := 0
+	for _, fn := range c.P.Funcs {
+		if only != nil && !only(fn) {
+			continue
+		}
+		for _, b := range fn.Blocks {
+			for _, in := range b.Instrs {
+				ci, ok := in.(ssa.CallInstruction)
+				if !ok {
+					continue
+				}
+				cal := ci.Common().StaticCallee()
+				if cal == nil {
+					continue
+				}
+				idx, is := fmtArg[cal.String()]
+				if !is || idx >= len(ci.Common().Args) {
+					continue
+				}
+				n++
+				fname := core.FuncName(fn)
+				pos := c.P.Pos(in.Pos())
+				if ok, why := safe(ci.Common().Args[idx], 0); ok {
+					c.Discharge(rule, fname, cal.Name()+" format", pos, "the format is built from constants only")
+				} else {
+					c.Violate(rule, fname, cal.Name()+" format", pos, "the format string of "+cal.String()+" contains run-time text ("+why+"): a '%' in a name, note or path is taken for a verb and the row is misprinted or merged with the next", nil)
+				}
+			}
+		}
+	}
+	if n == 0 {
+		c.Note(rule + ": no printf-family call in scope")
+	}
 }
